@@ -74,6 +74,22 @@ type gsMisc struct {
 	Fn         func()
 	unexported int
 }
+
+// defined (named) types of every basic kind: to reflect they have the kind of their underlying type, to a type
+// assertion or type switch they are not that type
+type gsInt int
+type gsU8 uint8
+type gsFloat float64
+type gsBool bool
+type gsStr string
+type gsSlice []any
+type gsStrSlice []gsStr
+type gsMap map[string]any
+type gsStrMap map[gsStr]gsInt
+type gsBytes []byte
+type gsArr [2]gsInt
+type gsAny any
+
 type gsKey struct {
 	A int
 	B string
@@ -118,6 +134,9 @@ func goShapeValues() map[string]any {
 		"nested":     [2][2]int{{3, 4}, {1, 2}},
 		"mapSlices": yaml.MapSlice{{Key: "a", Value: yaml.MapSlice{{Key: "b", Value: []any{yaml.MapSlice{{Key: nil, Value: nil}}}}}}, {Key: 1, Value: nil}, {Key: []int{1}, Value: 2},
 			{Key: "a", Value: "dup"}},
+		"defInt": gsInt(3), "defU8": gsU8(200), "defFloat": gsFloat(2.5), "defBool": gsBool(true), "defBoolF": gsBool(false), "defStr": gsStr("a b"), "defStrEmpty": gsStr(""),
+		"defSlice": gsSlice{gsInt(2), gsStr("x"), nil, gsInt(1)}, "defStrSlice": gsStrSlice{"b", "a"}, "defMap": gsMap{"a": gsInt(1), "size": gsStr("s")},
+		"defStrMap": gsStrMap{"k": 1, "j": 2}, "defBytes": gsBytes("hé"), "defArr": gsArr{2, 1}, "defs": []any{gsInt(1), 1, gsStr("1"), "1", gsBool(true), true, gsFloat(1), 1.0},
 		"nilMap":   nilMap,
 		"nilSlice": nilSlice,
 		"floats":   []any{math.NaN(), math.Inf(1), math.Inf(-1), math.Copysign(0, -1), float32(math.NaN()), math.MaxFloat64, math.SmallestNonzeroFloat64},
@@ -142,7 +161,12 @@ func robustGoShapesFamily(r *Run) {
 		"{% for x in v limit: 4 %}{{ x }}|{{ x[0] }}={{ x[1] }};{% endfor %}", "{% tablerow x in v cols: 2 limit: 4 %}{{ x }}{% endtablerow %}",
 		"{% if v == v %}T{% else %}F{% endif %}{% if v != w %}T{% else %}F{% endif %}{% if v < w %}T{% endif %}{% if v >= w %}T{% endif %}",
 		"{% if v contains w %}T{% else %}F{% endif %}{% if w contains v %}T{% else %}F{% endif %}", "{% case v %}{% when w %}W{% when v %}V{% else %}E{% endcase %}",
-		"{{ v | plus: 1 }}", "{{ v | times: w }}", "{{ v | append: 'x' }}|{{ v | upcase }}|{{ v | date: '%Y' }}|{{ v | default: 'd' }}", "{{ v | sort: 'V' | size }}|{{ v | concat: w | size }}|{{ w | concat: v | size }}",
+		"{{ v | plus: 1 }}", "{{ v | times: w }}", "{{ v | minus: v }}|{{ v | divided_by: v }}|{{ v | modulo: 2 }}|{{ v | abs }}|{{ v | ceil }}|{{ v | round: 1 }}|{{ v | at_least: 1 }}",
+		"{% if v contains 'a' %}T{% endif %}{% if v contains v %}T{% endif %}{% if 'a b c' contains v %}T{% endif %}{{ v.size }}|{{ v.first }}|{{ v[0] }}|{{ v['a'] }}",
+		"{{ v | size }}|{{ v | upcase }}|{{ v | split: ' ' | join: ',' }}|{{ v | slice: 0, 1 }}|{{ v | truncate: 2 }}|{{ v | replace: 'a', v }}|{{ 'x' | append: v }}|{{ v | strip }}|{{ v | escape }}",
+		"{% assign s = v | sort %}{{ s | join }}|{% assign s = v | sort_natural %}{{ s | join }}|{{ v | map: 'a' | join }}|{{ v | sort: 'a' | join }}",
+		"{% for x in (1..3) limit: v %}{{ x }}{% endfor %}|{% for x in (v..3) %}{{ x }}{% endfor %}|{% tablerow x in (1..2) cols: v %}{{ x }}{% endtablerow %}|{{ w[v] }}",
+		"{% if v %}T{% else %}F{% endif %}{% unless v %}U{% endunless %}{% if v == true %}=t{% endif %}{% if v == 3 %}=3{% endif %}{% if v == 'a b' %}=s{% endif %}{% if v > 2 %}>2{% endif %}{% if v < 'b' %}<b{% endif %}", "{{ v | append: 'x' }}|{{ v | upcase }}|{{ v | date: '%Y' }}|{{ v | default: 'd' }}", "{{ v | sort: 'V' | size }}|{{ v | concat: w | size }}|{{ w | concat: v | size }}",
 		"{{ v.Next.Next.Next.V }}|{{ v.Kids[0].Kids[1].V }}|{{ v.Kids | size }}|{{ v.S[2].V }}|{{ v.I.A }}|{{ v.PP }}|{{ v.M.a }}|{{ v.TP.Year }}|{{ v.a.b[0] }}",
 		"{% assign x = v %}{{ x }}{% capture c %}{{ v }}{% endcapture %}{{ c | size }}", "{% for i in (1..2) %}{% cycle v, w %}{% endfor %}", "{% include v %}",
 		"{% for x in (1..3) limit: v offset: w %}{{ x }}{% endfor %}", "{{ (v..w) | size }}", "{{ w[v] }}|{{ v[w] }}",
